@@ -15,13 +15,22 @@ What is proved (all schedules, unbounded):
   * `lu_sound_partial`, `lu_complete_partial`   wildcard-free stage (`Stage1`): an answer without error and
                                without ghost note returns `u` only if `u` definitely holds the relation and
                                returns every `u` that possibly holds it — with any coherent interpretation,
-                               and unconditionally for stratified systems (`…_stratified`).
+                               and unconditionally for stratified systems (`…_stratified`);
+  * `lu_sound_wild_partial`, `lu_complete_wild_partial`   the same with wildcards (`Stage2`), for the subjects a
+                               wildcard stands for: a returned `u` definitely holds the relation, a `u` that
+                               possibly holds it is returned explicitly or the wildcard is returned.  The
+                               reducer steps behind it: `covers_interR` (the counting comparison with the
+                               wildcard correction) and `covers_exclR` (the case table with the relationship
+                               status) of `Proofs/ListUsersWild.lean`;
+  * `lu_filter_fga`, `lu_exact1_fga`, `lu_exact2_fga`   the instances for the FGA rules `luRule`.
 The ghost notes are the steps of the Go code that the proof cannot justify; each of them is a confirmed
 defect of the unchanged code (`LU_Sound_Full`, `LU_Complete_Full`, `LU_Filter_Full` are refuted below by
 concrete systems, and reproduced on the real code by the crafted cases of harness/c06).
 -/
 import OpenFGAVerif.Proofs.ListUsersStage1
+import OpenFGAVerif.Proofs.ListUsersStage2
 import OpenFGAVerif.Proofs.ListUsersFilter
+import OpenFGAVerif.Proofs.ListUsersFga
 import OpenFGAVerif.Proofs.Stratified
 import OpenFGAVerif.Gen.ListUsers
 
@@ -71,6 +80,30 @@ theorem lu_exact_exec {N K : Type} [DecidableEq N] [DecidableEq K] (sys : LSys N
     (u ∈ (listUsersF sys limit sc fuel root).users → D (specSys sys u cw) (stratInterp (specSys sys u cw) rk) [] root) ∧
     (P (specSys sys u cw) (stratInterp (specSys sys u cw) rk) [] root → u ∈ (listUsersF sys limit sc fuel root).users) :=
   lu_exact_stratified sys limit u cw rk hst hs root _ (listUsersF_rel sys limit sc fuel root) he hn
+
+/-! ## The property with wildcards -/
+
+/-- **soundness with wildcards**, every schedule -/
+theorem lu_sound_wild_partial {N K : Type} [DecidableEq K] (sys : LSys N K) (limit : Nat) (u : K)
+    (I : Interp N) (hst : Stage2 sys) (hc : Coherent (specSys sys u true) I) (root : N) (a : Answer K)
+    (h : ListUsersRel sys limit root a) (he : a.errs = []) (hn : a.notes = []) (hu : u ∈ a.users) :
+    D (specSys sys u true) I [] root :=
+  (lu_exact2 sys limit u I hst hc root a h he hn).1 hu
+
+/-- **completeness with wildcards**, every schedule: returned explicitly or covered by the returned wildcard -/
+theorem lu_complete_wild_partial {N K : Type} [DecidableEq K] (sys : LSys N K) (limit : Nat) (u : K)
+    (I : Interp N) (hst : Stage2 sys) (hc : Coherent (specSys sys u true) I) (root : N) (a : Answer K)
+    (h : ListUsersRel sys limit root a) (he : a.errs = []) (hn : a.notes = [])
+    (hp : P (specSys sys u true) I [] root) : u ∈ a.users ∨ sys.wk ∈ a.users :=
+  (lu_exact2 sys limit u I hst hc root a h he hn).2 hp
+
+/-- both, unconditionally for stratified systems -/
+theorem lu_exact_wild_stratified {N K : Type} [DecidableEq K] (sys : LSys N K) (limit : Nat) (u : K)
+    (rk : N → Nat) (hst : Stage2 sys) (hs : Stratified (specSys sys u true) rk) (root : N) (a : Answer K)
+    (h : ListUsersRel sys limit root a) (he : a.errs = []) (hn : a.notes = []) :
+    (u ∈ a.users → D (specSys sys u true) (stratInterp (specSys sys u true) rk) [] root) ∧
+    (P (specSys sys u true) (stratInterp (specSys sys u true) rk) [] root → u ∈ a.users ∨ sys.wk ∈ a.users) :=
+  lu_exact2 sys limit u _ hst (coherent_of_stratified hs) root a h he hn
 
 /-! ## The full statements, and why they do not hold of the unchanged code -/
 
@@ -763,5 +796,39 @@ example : (listUsersF toySys 25 {} 10 0).users = [8] ∧ (listUsersF toySys 25 {
     (listUsersF toySys 25 {} 10 0).notes = [] := by decide
 
 example : ListUsersRel toySys 25 0 (listUsersF toySys 25 {} 10 0) := listUsersF_rel toySys 25 {} 10 0
+
+/-- a system with wildcards on both sides of an exclusion under an intersection:
+`0 := (1 but not 2) and 3`, `1 = {*, 7}`, `2 = {8}`, `3 = {*}` -/
+def wildSys : LSys Nat Nat where
+  rule := fun n => match n with
+    | 0 => .inter [.diff (.node 1) (.node 2), .node 3]
+    | 1 => .send [0, 7] | 2 => .send [8] | 3 => .send [0]
+    | _ => .send []
+  wk := 0
+  isWild := fun k => k == 0
+
+theorem wildSys_stage2 : Stage2 wildSys := by
+  refine ⟨rfl, ?_⟩
+  intro n
+  have hs : ∀ ks : List Nat, Stage2E wildSys (.send ks) := fun ks =>
+    .send _ (fun k _ hw => by simpa [wildSys] using hw)
+  match n with
+  | 0 =>
+    refine .inter _ (by simp) ?_
+    intro e he
+    simp only [List.mem_cons, List.not_mem_nil, or_false] at he
+    rcases he with rfl | rfl
+    · exact .diff _ _ (.node _) (.node _)
+    · exact .node _
+  | 1 => exact hs _
+  | 2 => exact hs _
+  | 3 => exact hs _
+  | n + 4 => exact hs _
+
+/-- the hypotheses of the wildcard theorems are satisfiable by a run that exercises the wildcard branch of
+`expandExclusion` and the wildcard correction of `expandIntersection`: answer `{*, 7}` (8 is excepted
+internally), no error, no note -/
+example : (listUsersF wildSys 25 {} 10 0).users = [7, 0] ∧ (listUsersF wildSys 25 {} 10 0).errs = [] ∧
+    (listUsersF wildSys 25 {} 10 0).notes = [] := by decide
 
 end OpenFGAVerif.C06
